@@ -401,7 +401,17 @@ def case_forms(mon, y, m, d):
                        difference_arcsec=(t_ - m_ - n_) * 3600))
 
 
-CASES = {"history": history.case, "reflection": case_reflection, "frames": case_frames,
+def case_frames_chain(mon, jde, eq_jde, step_s, n):
+    """The frame comparison at instants a minute to an hour apart, one after
+    the other in one process: each is judged on its own, so an answer kept
+    from the previous instant (about 2e-7 AU per second of staleness) shows
+    as soon as it is 50 s old."""
+    for k in range(n):
+        case_frames(mon, jde + k * step_s / 86400.0, eq_jde)
+    mon.cls("frames-at-successive-instants", ("chain", jde, step_s))
+
+
+CASES = {"frames_chain": case_frames_chain, "history": history.case, "reflection": case_reflection, "frames": case_frames,
          "obliquity": case_obliquity, "coarse": case_coarse,
          "forms": case_forms}
 
@@ -429,6 +439,13 @@ def run(mon, spec):
                 (0.0, 0.0, 0.3, -0.3, 1e-6))
         mon.begin("frames", [jde, eq])
         case_frames(mon, jde, eq)
+    for _ in range(max(6, spec["n_frame"] // 25)):
+        jde = jd_of_year(rng.uniform(1000.0, 3000.0))
+        eq = rng.choice((jde, J2000, jd_of_year(rng.uniform(1000., 3000.))))
+        p = [jde, eq, rng.choice((72.0, 72.0, 80.0, 84.0, 600.0, 3600.0)),
+             12]
+        mon.begin("frames_chain", p)
+        case_frames_chain(mon, *p)
     for _ in range(spec["n_refl"]):
         jde = jd_of_year(rng.uniform(-2000.0, 4000.0))
         mon.begin("reflection", [jde])
